@@ -69,6 +69,10 @@ func genC16(r *Rng, tier string, idx int) *Plan {
 		k.IDTokenTTL, k.ExpiresIn = 300, 300
 		k.LatencyUS = []int{0, 30, 200}[r.Intn(3)]
 	}
+	if nf == 1 && r.Chance(0.25) {
+		p.Spec.HandlerMode = true
+		p.Spec.TriggerRules = nil
+	}
 	id := 0
 	n := r.Range(4, 12)
 	kinds := []string{"nocookie", "login", "login", "fresh", "fresh", "refresh", "refresh", "logout", "callback-garbage", "reconcile", "ca-rewrite", "load-tls"}
@@ -136,7 +140,7 @@ func direct(w *World, fi int, path, cookie string) (resp *envoy.CheckResponse, p
 			panicked = p
 		}
 	}()
-	resp, _ = w.Rep.filter.Check(context.Background(), mkRequest("https", f.Spec.AppHost, path, hdr))
+	resp, _ = w.dispatch(fi, mkRequest("https", f.Spec.AppHost, path, hdr))
 	return resp, nil
 }
 
